@@ -434,6 +434,45 @@ func exhaustive(n int, allorders, validonly bool, f func(addchain.Program)) {
 	rec()
 }
 
+// exhaustiveFrom enumerates the duplicate-free programs made of pre doublings of the last
+// element followed by n arbitrary ops (both operand orders).
+func exhaustiveFrom(pre, n int, f func(addchain.Program)) {
+	p := addchain.Program{}
+	vals := []int64{1}
+	for k := 0; k < pre; k++ {
+		p = append(p, addchain.Op{I: k, J: k})
+		vals = append(vals, 2*vals[k])
+	}
+	var rec func()
+	rec = func() {
+		k := len(p)
+		if k == pre+n {
+			f(p)
+			return
+		}
+		for i := 0; i <= k; i++ {
+			for j := 0; j <= k; j++ {
+				v := vals[i] + vals[j]
+				dup := false
+				for _, w := range vals {
+					if w == v {
+						dup = true
+					}
+				}
+				if dup {
+					continue
+				}
+				p = append(p, addchain.Op{I: i, J: j})
+				vals = append(vals, v)
+				rec()
+				p = p[:k]
+				vals = vals[:k+1]
+			}
+		}
+	}
+	rec()
+}
+
 // RandomProgram builds a valid program of about n ops rich in doubling runs, re-used run
 // intermediates and single-use chains of operations (which the builder inlines).
 func RandomProgram(r *lib.Rand, n int) addchain.Program {
@@ -584,6 +623,16 @@ func Gen(fns []string) func(tier string, r *lib.Rand, emit func(string)) {
 				}
 				out(q)
 			})
+		}
+		// (a') nothing below 2^8 can be inlined by the builder, so the small scope above never
+		// reaches its inlining branch: exhaustive suffixes after a prefix of nine doublings
+		// (values 1..512), both operand orders, duplicate-free
+		suffix := 2
+		if tier == "thorough" {
+			suffix = 3
+		}
+		for n := 1; n <= suffix; n++ {
+			exhaustiveFrom(9, n, out)
 		}
 		// (b) structured random programs
 		for i := 0; i < nrand; i++ {
